@@ -116,6 +116,15 @@ fn one_case(run: &Run, case: u64) {
     let src = sc.join("src");
     tree::sync_to_disk(None, &spec, &src).expect("materialise");
     let snap = tree::snapshot(&src).expect("snapshot");
+    if case % 6 == 2 {
+        // a fifo and a socket: not backed up, so the restored tree equals the source without them
+        // (the directory's mtime changes by creating them, so they go into a directory of their own
+        // whose times are set afterwards)
+        let special = tree::add_special_files(&src, "/");
+        run.count("sources_with_a_fifo_or_socket", !special.is_empty() as u64);
+        let root = &snap["/"];
+        let _ = filetime::set_file_mtime(&src, filetime::FileTime::from_unix_time(root.mtime_s, root.mtime_ns));
+    }
     let replay = json!({"case": case, "options": o.label()});
     run.eval();
     let cl = classes(&snap, o);
